@@ -101,7 +101,7 @@ impl Check for C01 {
     fn meta(&self) -> Meta {
         Meta {
             level: "exploration",
-            rule: "one run = one pipeline (keygen -> prove n circuits together -> verify) over a PRNG-generated circuit spec, satisfying witnesses, committed/plain split, transcript hash, per-party pool size and task order, blinding stream; no faults. distinct_nontrivial counts distinct scenario digests among runs in which the prover produced a proof and the verifier was executed",
+            rule: "seven runs in eight: one pipeline (keygen -> prove n circuits together -> verify) over a PRNG-generated circuit spec, satisfying witnesses, committed/plain split, transcript hash, per-party pool size and task order, blinding stream; no faults. distinct_nontrivial counts distinct scenario digests among runs in which the prover produced a proof and the verifier was executed; every 8th run: a standard-library relation of the operation registry (k <= 12) through setup_vk / setup_pk / prove / verify under drawn schedules and both transcript hashes, with the public inputs its circuit binds",
             assumptions: vec![
                 "SRS from a fixed toxic secret via ParamsKZG::unsafe_setup (stub of the ceremony)",
                 "rayon replaced by the deterministic scheduler shim; blst internal pool disabled (no-threads)",
@@ -138,10 +138,20 @@ impl Check for C01 {
             Tier::Thorough => 150000,
         }
     }
-    fn generate(&self, rng: &mut Prng, tier: Tier, _idx: u64) -> Value {
+    fn generate(&self, rng: &mut Prng, tier: Tier, idx: u64) -> Value {
+        // every 8th run: a standard-library relation of the operation registry through setup / prove / verify
+        if idx % 8 == 7 {
+            return serde_json::json!({"std": super::stdpipe::gen(rng, tier == Tier::Thorough)});
+        }
         serde_json::to_value(gen_scn(rng, tier)).unwrap()
     }
     fn execute(&self, scn: &Value, st: &mut Stats) -> Verdict {
+        if let Some(std) = scn.get("std") {
+            return match serde_json::from_value::<super::stdpipe::StdScn>(std.clone()) {
+                Ok(s) => super::stdpipe::run_c01(&s, st),
+                Err(e) => Verdict::Harness(format!("bad scenario: {e}")),
+            };
+        }
         let s: Scn = match serde_json::from_value(scn.clone()) {
             Ok(s) => s,
             Err(e) => return Verdict::Harness(format!("bad scenario: {e}")),
@@ -149,6 +159,9 @@ impl Check for C01 {
         run_honest(&s, st)
     }
     fn shrink(&self, scn: &Value, _viol: &Viol) -> Vec<Value> {
+        if scn.get("std").is_some() {
+            return vec![];
+        }
         let s: Scn = serde_json::from_value(scn.clone()).unwrap();
         shrink_scn(&s).into_iter().map(|s| serde_json::to_value(s).unwrap()).collect()
     }
